@@ -44,6 +44,12 @@ claim("C08",
  "static analysis: summary-based provenance/mutation-footprint analysis over go/ssa with dominator guards; evaluation-site census against a confirmed reference",
  "DESIGN.md §2.2, §3 C08")
 
+claim("C10",
+ "Static loop-shape and state analysis of the per-document pipeline: in streamEvaluator.Evaluate and readDocuments every path from Decode to the use of the node passes the three provenance stores with the right sources (CFG must-pass-through), the document counter is the loop-carried phi(0, counter+1) advanced after the document was consumed, the file counter advances once at EOF; the evaluation context is built from a list created inside the iteration and exactly one PrintResults prints this iteration's result; (engine E1) no handler stores document-dependent or late values into objects of the shared parsed expression tree and no handler except REF returns a node of that tree (literals are copied on use); every decoder field written by Decode is reset by Init. Necessary conditions of document independence and true provenance.",
+ TB,
+ "static analysis: CFG must-pass-through, SSA phi-shape recognition, summary-based mutation-footprint analysis (E1) rooted at the expression-node parameter, sibling field-write comparison (Init vs Decode)",
+ "DESIGN.md §3 C10")
+
 na = {
  "C01": "whole-property quantifies over runtime values of all programs x documents; no structural clause with detection value beyond what C09/C11 already check (DESIGN.md §3 C01)",
 }
